@@ -213,6 +213,17 @@ def run(tier, seed, replay):
             if D is not None:
                 chk("displace-unitary", np.abs(MM(D, D.dag()) - np.eye(N)).max() < 1e-9, f"displace({N}, {al}) is not unitary")
                 chk("displace-inverse", np.abs((D.dag() - qutip.displace(N, -al)).full()).max() < 1e-9, f"displace({N}, {al})+ != displace({N}, {-al})")
+            # with an offset the displacement is the exponential of alpha a+ - alpha* a built from the ladder operators of
+            # the shifted number states, and so unitary with D(-alpha) its inverse
+            for off in (1, 3):
+                Do = guarded(f"displace({N},{al},offset={off})", lambda: qutip.displace(N, al, offset=off), dim1=(N == 1))
+                if Do is not None and N >= 2:
+                    ao = qutip.destroy(N, offset=off)
+                    import scipy.linalg as _sl
+                    want = _sl.expm(al * ao.dag().full() - np.conj(al) * ao.full())
+                    chk("displace-offset", np.abs(Do.full() - want).max() < 1e-9, f"displace({N}, {al}, offset={off}) is not exp(alpha a+ - alpha* a) of the ladder operators with that offset")
+                    chk("displace-offset-unitary", np.abs(MM(Do, Do.dag()) - np.eye(N)).max() < 1e-9, f"displace({N}, {al}, offset={off}) is not unitary")
+                    chk("displace-offset-inverse", np.abs((Do.dag() - qutip.displace(N, -al, offset=off)).full()).max() < 1e-9, f"displace({N}, {al}, offset={off})+ != displace({N}, {-al}, offset={off})")
             S = guarded(f"squeeze({N},{al})", lambda: qutip.squeeze(N, al), dim1=(N == 1))
             if S is not None:
                 chk("squeeze-unitary", np.abs(MM(S, S.dag()) - np.eye(N)).max() < 1e-9, f"squeeze({N}, {al}) is not unitary")
@@ -503,10 +514,15 @@ def run(tier, seed, replay):
         rep.case({"random": [str(dform), density]}, N >= 2)
         data = {"dims": dform, "density": density, "seed": sd}
         for dist in ("fill", "eigen", "pos_def"):
-            kw = {"eigenvalues": np.linspace(-1, 2, N)} if dist == "eigen" else {}
+            # spectra with equal eigenvalues too (a multiple of the identity cannot be filled by rotations at all)
+            spec_h = [np.linspace(-1, 2, N), np.full(N, 0.5), np.array([0.5] * (N // 2) + [2.0] * (N - N // 2))][int(rng.integers(0, 3))]
+            kw = {"eigenvalues": spec_h} if dist == "eigen" else {}
             H = twice(f"rand_herm[{dist}]", lambda s: qutip.rand_herm(dform, density=density, distribution=dist, seed=s, **kw), sd, dict(data, distribution=dist))
             if H is not None:
                 chk("rand_herm", np.abs(H.full() - H.full().conj().T).max() < 1e-12 and H.isherm and H.dims == want_dims, f"rand_herm({dform}, {density}, {dist}) is not Hermitian with dims {want_dims}: dims {H.dims}", dict(data, distribution=dist))
+                if dist == "eigen":
+                    chk("rand_herm-eigenvalues", np.abs(np.sort(np.linalg.eigvalsh(H.full())) - np.sort(spec_h)).max() < 1e-9,
+                        f"rand_herm({dform}, eigen) does not have the requested eigenvalues {np.sort(spec_h).tolist()}", dict(data, distribution=dist))
                 if dist == "pos_def":
                     chk("rand_herm-posdef", np.linalg.eigvalsh(H.full()).min() > -1e-10, f"rand_herm pos_def has a negative eigenvalue", dict(data, distribution=dist))
         for dist in ("haar", "exp"):
@@ -519,12 +535,15 @@ def run(tier, seed, replay):
                 chk("rand_ket", abs(k.norm() - 1) < 1e-10 and k.dims[0] == want_dims[0] and k.isket, f"rand_ket({dform}, {density}, {dist}): norm {k.norm()}, dims {k.dims}", dict(data, distribution=dist))
         for dist in ("ginibre", "hs", "pure", "eigen", "herm"):
             rank = int(rng.integers(1, N + 1))
-            kw = {"rank": rank} if dist == "ginibre" else ({"eigenvalues": np.arange(1, N + 1) / (N * (N + 1) / 2)} if dist == "eigen" else {})
+            spec_d = [np.arange(1, N + 1) / (N * (N + 1) / 2), np.full(N, 1.0 / N), np.array([1.0] + [0.0] * (N - 1))][int(rng.integers(0, 3))]
+            kw = {"rank": rank} if dist == "ginibre" else ({"eigenvalues": spec_d} if dist == "eigen" else {})
             r = twice(f"rand_dm[{dist}]", lambda s: qutip.rand_dm(dform, density=max(density, 0.04), distribution=dist, seed=s, **kw), sd, dict(data, distribution=dist, rank=rank))
             if r is not None:
                 ev = np.linalg.eigvalsh((r.full() + r.full().conj().T) / 2)
                 chk("rand_dm", abs(r.tr() - 1) < 1e-10 and ev.min() > -1e-10 and np.abs(r.full() - r.full().conj().T).max() < 1e-12 and r.dims == want_dims,
                     f"rand_dm({dform}, {dist}) is not a density matrix with dims {want_dims}: trace {r.tr()}, min eigenvalue {ev.min()}, dims {r.dims}", dict(data, distribution=dist))
+                if dist == "eigen":
+                    chk("rand_dm-eigenvalues", np.abs(np.sort(ev) - np.sort(spec_d)).max() < 1e-9, f"rand_dm({dform}, eigen) does not have the requested eigenvalues {np.sort(spec_d).tolist()}", dict(data, distribution=dist))
                 if dist == "ginibre":
                     chk("rand_dm-rank", int((ev > 1e-10).sum()) == rank, f"rand_dm({dform}, ginibre, rank={rank}) has rank {(ev > 1e-10).sum()}", dict(data, rank=rank))
                 if dist == "pure":
